@@ -129,8 +129,8 @@ func (hs *ssDHClientHandshake) parseServerHandshake(resp []byte) (int, []byte, e
 			return 0, nil, ErrInvalidHandshake
 		}
 		return 0, nil, errMarkNotFoundYet
-	} else if len(resp) < pos+2*macLength {
-		// Didn't receive the full M_S.
+	} else if len(resp) < uniformdh.Size+pos+2*macLength {
+		// Didn't receive the full M_S | MAC (pos is relative to the end of Y).
 		return 0, nil, errMarkNotFoundYet
 	}
 	pos += uniformdh.Size
